@@ -2125,7 +2125,7 @@ static void compile_nested_function(CG *cg, ASTNode *node) {
     /* Restore parent's locals for upvalue resolution */
     memcpy(parent_snapshot.locals, saved_locals, sizeof(saved_locals));
     parent_snapshot.local_count = saved_local_count;
-    parent_snapshot.upvalues[0].name = NULL; /* sentinel */
+    memcpy(parent_snapshot.upvalues, saved_upvalues, sizeof(saved_upvalues));
     parent_snapshot.upvalue_count = saved_upvalue_count;
     parent_snapshot.parent = saved_parent;
 
@@ -2188,8 +2188,11 @@ static void compile_nested_function(CG *cg, ASTNode *node) {
     cg->param_count = saved_param_count;
     memcpy(cg->loops, saved_loops, sizeof(cg->loops));
     cg->loop_depth = saved_loop_depth;
-    memcpy(cg->upvalues, saved_upvalues, sizeof(cg->upvalues));
-    cg->upvalue_count = saved_upvalue_count;
+    /* The nested function may have captured a variable of an outer function THROUGH this one
+     * (upvalue_resolve() then added an upvalue to the snapshot that stood in for this function):
+     * keep those, this function has to capture them itself */
+    memcpy(cg->upvalues, parent_snapshot.upvalues, sizeof(cg->upvalues));
+    cg->upvalue_count = parent_snapshot.upvalue_count;
     cg->parent = saved_parent;
 
     /* At the definition site: push captured values, then emit CLOSURE_NEW */
